@@ -442,6 +442,11 @@ func sCheckDocValues(seg segment.Segment, sp *sSpec, order []int, tag string) {
 // sCheckDocValuesX: with exactFields false (merged segments) the visitable list only has to lie between
 // the fields that have a doc-value term in some document and the fields indexed with doc values.
 func sCheckDocValuesX(seg segment.Segment, sp *sSpec, order []int, tag string, exactFields bool) {
+	_ = sCheckDocValuesState(seg, sp, order, tag, exactFields, nil)
+}
+
+// sCheckDocValuesState threads the given visit state through the visits and returns it (reuse across segments).
+func sCheckDocValuesState(seg segment.Segment, sp *sSpec, order []int, tag string, exactFields bool, st segment.DocVisitState) segment.DocVisitState {
 	dvs, ok := seg.(segment.DocValueVisitable)
 	vAssert(ok, tag+"dv-visitable")
 	fl, err := dvs.VisitableDocValueFields()
@@ -478,7 +483,6 @@ func sCheckDocValuesX(seg segment.Segment, sp *sSpec, order []int, tag string, e
 	for _, fp := range sp.posts {
 		ask = append(ask, fp.field)
 	}
-	var st segment.DocVisitState
 	for _, d := range order {
 		type fv struct {
 			field string
@@ -506,4 +510,5 @@ func sCheckDocValuesX(seg segment.Segment, sp *sSpec, order []int, tag string, e
 			vAssert(seen[i] == want[i], tag+"dv-term")
 		}
 	}
+	return st
 }
